@@ -1357,7 +1357,13 @@ class Engine:
         if spec is None:
             raise Unsupported(f'range loop #{k} at L{n.get("line")} in {self.fn} has no invariant in the sidecar')
         idx_name = getattr(spec, 'index', None) or f'{vd.name}__idx'
-        if isinstance(rng, Ptr) and isinstance(st.heap.get(rng.oid), (NodeVec, ScalarVec)):
+        if isinstance(rng, Ptr) and isinstance(st.heap.get(rng.oid), ScalarVec) and st.heap[rng.oid].name.startswith('specvec:'):
+            length = lambda s: s.heap[rng.oid].len
+
+            def elem(s, i):
+                ref = z3.Select(s.heap[rng.oid].arr, i)
+                return Ptr(s.alloc(SpecObj(s.alloc(M.ext_spec_vec(ref)), M.ext_spec_nil(ref), M.ext_spec_ns(ref))))
+        elif isinstance(rng, Ptr) and isinstance(st.heap.get(rng.oid), (NodeVec, ScalarVec)):
             length = lambda s: s.heap[rng.oid].len
             elem = lambda s, i: ElemRef(rng.oid, i)
         elif isinstance(rng, PyObj):
